@@ -19,6 +19,7 @@ CONSTANTS
   AsyncKinds = {}
   MaxNet = 0
   W = {}
+  MayTimeout = {a, b, c}
   Gen = FALSE
 INIT HInit
 NEXT HNext
